@@ -124,6 +124,60 @@ func annotCases(g *Gen, n int) []*Case {
 	return cases
 }
 
+// hiddenCases: barrier / secondary / mark nodes at any depth whose hidden sub-trees carry
+// hints, domains, assertion flags, codes, keys and sentinels.
+func hiddenCases(g *Gen, n int) []*Case {
+	carriers := []string{"handled", "handled", "secondary", "combine", "mark", "handleasassertion", "newassertionwrapped"}
+	rich := []string{"hint", "detail", "domain", "assertion", "http", "grpc", "telemetry", "issuelink", "tags", "wrap", "mark", "secondary", "handled"}
+	var cases []*Case
+	for i := 0; i < n; i++ {
+		// a hidden tree full of annotations over a sentinel or an errno
+		var hidden *R
+		switch g.rng.Intn(3) {
+		case 0:
+			hidden = g.LeafOp("sentinel")
+		case 1:
+			hidden = g.LeafOp("errno")
+		default:
+			hidden = g.Leaf()
+		}
+		for d := g.rng.Intn(5); d > 0; d-- {
+			hidden = g.WrapOp(rich[g.rng.Intn(len(rich))], hidden, 2)
+		}
+		visible := g.Tree(1 + g.rng.Intn(3))
+		var rec *R
+		op := carriers[g.rng.Intn(len(carriers))]
+		switch op {
+		case "secondary", "combine", "mark":
+			rec = g.node(op, nil, nil, visible, hidden)
+		default:
+			rec = g.WrapOp(op, hidden, 2)
+		}
+		for d := g.rng.Intn(4); d > 0; d-- {
+			rec = g.WrapOp(g.rng.Pick(wrapOps), rec, 2)
+		}
+		refs := sentinelRefs(g)
+		refs = append(refs, g.Clone(hidden))
+		cases = append(cases, buildCase(fmt.Sprintf("h%d", i), rec, refs, []int{0, 1, 2, 3}))
+	}
+	if g.allowErrArgs || true {
+		for i := 0; i < n/10; i++ {
+			hidden := g.WrapOp("hint", g.WrapOp("domain", g.LeafOp("sentinel"), 2), 2)
+			var rec *R
+			switch g.rng.Intn(3) {
+			case 0:
+				rec = g.node("newfe", []string{"failed %v"}, nil, hidden)
+			case 1:
+				rec = g.node("wrapfe", []string{"while %v"}, nil, g.Tree(2), hidden)
+			default:
+				rec = g.node("newfw", []string{"ctx: %w"}, nil, hidden)
+			}
+			cases = append(cases, buildCase(fmt.Sprintf("he%d", i), rec, sentinelRefs(g), []int{0, 1, 2}))
+		}
+	}
+	return cases
+}
+
 // pairCases: every ordered pair (outer wrapper kind, inner kind) over canonical leaves.
 func pairCases(g *Gen) []*Case {
 	var cases []*Case
@@ -187,6 +241,8 @@ func runProperty(res *Result, prop, tier string, seed uint64, driver, replay str
 	switch prop {
 	case "C19":
 		cases = append(cases, annotCases(g, n)...)
+	case "C07":
+		cases = append(cases, hiddenCases(g, n)...)
 	case "C11":
 		cases = append(cases, pairCases(g)...)
 		cases = append(cases, annotCases(g, n/2)...)
